@@ -84,6 +84,7 @@ PROPS = {
     ),
     'C13': dict(
         units=['merge', 'insert'],
+        replay_units=['subsumehead'],
         kani_quick=[],
         kani_thorough=['combine_subsumed_algebra', 'schema_math_layout', 'write_table_row_vec'],
         design_ref='DESIGN.md section 4 (U-MERGE, U-MIN, U-ACT) and section 5 C13',
